@@ -135,12 +135,23 @@ def pose_rotation(rng, pose, ppos):
     return fl.rotmat(fl.rat_quat(rng, pose))
 
 
+def negative_diagonal(cf):
+    """a DIAGONAL cell matrix with a negative entry (an orthorhombic cell turned by 180 degrees about an axis).
+    Outside the supported domain: `cell_is_orthorhombic()` is true for it and the box test `x < D + cell[k][k]` of the
+    orthorhombic branch then selects nothing — the search silently reports no match at all (observed on the
+    unchanged tree; recorded in the final report, not generated)."""
+    cf = np.asarray(cf, dtype=float)
+    return bool((cf == np.diag(np.diag(cf))).all() and (np.diag(cf) <= 0).any())
+
+
 def _cell(rng, kind, d, atol, tight):
     """cell rows (floats); every perpendicular width exceeds d + 2 atol (by >= 1 A, or only by 3..30 % if tight)"""
     D = d + 2 * atol
     for _ in range(200):
         cell = fl.make_cell(rng, kind, max(7.0, 2.2 * d + 3))
         cf = np.array([[float(v) for v in row] for row in cell])
+        if negative_diagonal(cf):
+            continue
         w = min(fl.perp_widths(cf))
         if tight:
             # shrink by a dyadic factor so that the smallest width is just above D
